@@ -33,6 +33,8 @@ def gen_cases(tier, seed):
         cfgd["iteration_limit"] = int(rng.choice([10, 40]))
         if rng.random() < 0.3:
             cfgd["rho"] = float(10.0 ** rng.uniform(-4, 0))
+        if rng.random() < 0.25:
+            cfgd.update(C.rare_params(rng, allow_unvalidated=True))
         case = work.mk_case(fam, [seed, k], cfgd)
         case["y0"] = "rand" if rng.random() < 0.4 else "none"
         # the shared default Params() has no iteration limit: only use it on families that converge
@@ -167,6 +169,14 @@ def run_case(case):
             p = p2
             evals += 1
         elif kind == "resolve_same_object":
+            if rng.random() < 0.5:
+                # the rarely used single-step entry point on the same object first
+                try:
+                    kept[1].perform_iteration(kept[0].x0, kept[0].y0)
+                    bump("perform_iteration_calls")
+                except BaseException as ex:
+                    if type(ex).__name__ == "CaseTimeout":
+                        raise
             p, out = run_target(case, solver=kept)
         else:
             if kind == "fresh_after_other":
